@@ -57,12 +57,10 @@ func panicClass(msg string) string {
 		return "interface-conversion"
 	case strings.Contains(msg, "nil pointer dereference"):
 		return "nil-deref"
-	case strings.Contains(msg, "reflect.Set"):
-		return "reflect-set"
-	case strings.Contains(msg, "reflect: Call using") || strings.Contains(msg, "in Call"):
-		return "reflect-call"
 	case strings.Contains(msg, "zero Value"):
 		return "reflect-zero-value"
+	case strings.Contains(msg, "not assignable to type") || strings.Contains(msg, "reflect: Call using") || strings.Contains(msg, "in Call"):
+		return "go-type-mismatch"
 	case strings.Contains(msg, "index out of range"):
 		return "index-out-of-range"
 	case strings.Contains(msg, "reflect"):
@@ -339,6 +337,9 @@ func runRoute(t T, variant, route string) (r res) {
 		}
 		return judgeObj(canonGo(v, 0), obj, "", "result of "+method, true)
 
+	case "member-read", "member-write":
+		return members(t, v, name, src)
+
 	case "param(api)":
 		a, ref, sr, ok := source(t, v, src)
 		if !ok {
@@ -347,6 +348,112 @@ func runRoute(t T, variant, route string) (r res) {
 		return apiCall(rt, a.(object.Object), ref, src)
 	}
 	return skip("unknown route")
+}
+
+// structOf returns the struct description behind t (t itself, a declared struct type, or a pointer
+// to either) when it has at least two exported members.
+func structOf(t T) (T, bool) {
+	for i := 0; i < 3; i++ {
+		switch t.K {
+		case "ptr":
+			t = *t.E
+			continue
+		case "named":
+			t = under(t)
+			continue
+		}
+		break
+	}
+	if t.K == "struct" && len(t.F) >= 2 {
+		return t, true
+	}
+	return T{}, false
+}
+
+// members reads or writes every member of a struct with several members through its proxy, one
+// evaluation per member, and checks the whole Go struct after every write (a write must change
+// exactly the member written).
+func members(t T, v reflect.Value, name, src string) res {
+	st, ok := structOf(t)
+	if !ok {
+		return skip("not a struct with several members")
+	}
+	// a pointer to a fresh struct, so that the Go side sees what the script does
+	for v.Kind() == reflect.Ptr || v.Kind() == reflect.Interface {
+		if v.IsNil() {
+			return skip("nil struct pointer")
+		}
+		v = v.Elem()
+	}
+	pv := reflect.New(v.Type())
+	if name == "member-read" {
+		pv.Elem().Set(v)
+	}
+	all := converted()
+	nrej := 0
+	for i := range st.F {
+		fname := st.fieldName(i)
+		fv := v.Field(i)
+		if name == "member-read" {
+			obj, err, pan := evalSafe("x."+fname, map[string]any{"x": pv.Interface()})
+			out, ok := evalOutcome(obj, err, pan, "")
+			if !ok {
+				if out.Status == "fail" {
+					out.Detail = "member " + fname + ": " + out.Detail
+					return out
+				}
+				nrej++
+				continue
+			}
+			jr := judgeObj(canonGo(fv, 0), obj, "", "x."+fname, true)
+			if jr.Status == "fail" {
+				jr.Detail = "member " + fname + ": " + jr.Detail
+				return jr
+			}
+			if jr.Status == "rejected" {
+				nrej++
+			}
+			continue
+		}
+		a, ref, _, ok := source(st.F[i], fv, src)
+		if !ok {
+			continue
+		}
+		before := reflect.New(v.Type()).Elem()
+		before.Set(pv.Elem())
+		obj, err, pan := evalSafe("x."+fname+" = a\nx."+fname, map[string]any{"x": pv.Interface(), "a": a})
+		out, ok := evalOutcome(obj, err, pan, "")
+		if !ok {
+			if out.Status == "fail" {
+				out.Detail = "member " + fname + ": " + out.Detail
+				return out
+			}
+			nrej++
+			continue
+		}
+		if gr := goSide(ref, pv.Elem().Field(i), src, "Go member "+fname+" after the write"); gr.Status != "converted" {
+			return gr
+		}
+		for j := range st.F {
+			if j == i {
+				continue
+			}
+			if cls, d := diff(canonGo(before.Field(j), 0), canonGo(pv.Elem().Field(j), 0), "member "+st.fieldName(j)); cls != "" {
+				return failed("write-changed-other-member", fmt.Sprintf("writing member %s changed member %s: %s", fname, st.fieldName(j), d))
+			}
+		}
+		jr := judgeObj(ref, obj, "readback-", "x."+fname+" read back", false)
+		if jr.Status == "fail" {
+			return jr
+		}
+		if jr.Status == "rejected" {
+			return failed("readback-rejected", "member "+fname+" was written but reading it back fails: "+jr.Detail)
+		}
+	}
+	if nrej == len(st.F) {
+		return rejected("every member rejected")
+	}
+	return all
 }
 
 // apiCall repeats, through the exported object API, what Proxy.call does for one parameter of
@@ -432,6 +539,9 @@ func routesFor(t T) []string {
 	}
 	if typed {
 		out = append(out, "return")
+	}
+	if _, ok := structOf(t); ok {
+		out = append(out, "member-read", "member-write", "member-write/script")
 	}
 	return out
 }
